@@ -138,6 +138,10 @@ def life_scenarios(rng):
         s = ["scenario", "new 2 %d tcp" % fam, "connectdead 2", "new 7 %d tcp" % fam, "set 7 blocking 0", "connectdead 7", "new 1 %d tcp" % fam, "set 1 backlog 9", "getters 1",
              "bind 1", "listen 1", "set 1 backlog 3", "getters 1", "set 1 keepalive 1", "set 1 keepalive 0", "set 1 timeout -4", "getters 1"]
         out.append(s)
+        # a connection attempt that cannot complete (accept queue full, nobody accepts): timed-out error after T, socket stays unconnected
+        s = ["scenario", "new 1 %d tcp" % fam, "set 1 backlog 0", "bind 1", "listen 1", "fill 1", "new 2 %d tcp" % fam, "set 2 timeout 300", "connectfull 2 1", "getters 2",
+             "new 7 %d tcp" % fam, "set 7 blocking 0", "connectfull 7 1", "getters 7", "close 2", "connectfull 2 1"]
+        out.append(s)
         # blocking without timeout waits until it can proceed: the receiver is parked, then the peer sends
         s = ["scenario"] + tcp_pair(fam) + ["bg recv 3 10", "sleepms 60", "send 2 4", "join", "bg accept 8 1", "sleepms 60", "new 9 %d tcp" % fam, "connect 9 1", "join"]
         out.append(s)
